@@ -36,6 +36,8 @@ def c12_failures(r):
     p = r["c12"]
     bad = [k for k in C12_HARD if p.get(k) is not True]
     bad += ["equivalent_share_" + w for w, v in p.get("equivalent_share", {}).items() if v is not True]
+    if p.get("analyzer_reuse") is False:
+        bad.append("analyzer_reuse(one analyzer fed successive crystals through set_system answers differently from a fresh one)")
     return bad
 
 
@@ -138,7 +140,7 @@ def replay(ctx, rep):
     build = S.build()
     if "crystal" in rep:
         case = {"crystal": rep["crystal"], "tol": rep.get("tol", W.TOL), "sg": rep.get("sg"), "variant": "replay", "base": None}
-        r = W.run_impl([case], True)[0]
+        r = W.replay_rows(rep, case)
         bad = "error" in r or bool(c12_failures(r))
         if not bad:
             failing, cerr = C.coq_case_files("c12replay", W.PREAMBLE, [(0, W.c12_term(r))])
